@@ -22,7 +22,9 @@ RULE = ("name and base built from 0-3 segments out of {a, b, x.y, .h, .., ., '',
         "with siblings / the tail directory replaced by a file so that the alt head is used / something at the alt "
         "path) x owner step; a history stream runs the constructor and then 1-5 reopen(temp=None/True/False, fext, clear, "
         "reuse, clean) / close(clear) calls on one Filer with a sibling Filer's file and unrelated files in the shared "
-        "directories, snapshotting after every call; thorough enumerates all 16 flag sets x all name/base pairs of <= 2 segments; non-trivial "
+        "directories, and direct remake(name, base, temp, clean, filed, extensioned, fext) calls whose base/name differ "
+        "from the constructor's (climbing, absolute, empty), snapshotting after every call (the walk starts 6 directories "
+        "above the sandbox root, so escapes show up as ../ paths); thorough enumerates all 16 flag sets x all name/base pairs of <= 2 segments; non-trivial "
         "= a dotted segment ('.', '..' or '...'), or temp with filed, extensioned or clean, or a history of >= 2 calls or "
         "with a clearing temp flip")
 MODELLED = ["POSIX path strings as segment lists split at '/' (os.path.join/normpath/abspath/split/splitext/isabs)",
@@ -79,7 +81,7 @@ def directed():
         out.append(dict(c, pre=[["head/hio", True]]))
         out.append(dict(c, pre=[["head/hio", True], [expected_rel(c, alt=True), bool(filed)]]))
     out.append(dict(mk("x"), pre=[["head/hio", True], ["alt/.hio", True]]))
-    return out + directed_histories()
+    return out + directed_histories() + directed_remakes()
 
 
 def rand_path(rng):
@@ -157,12 +159,33 @@ def directed_histories():
     return out
 
 
+def rand_remake(rng):
+    return ["remake", rand_path(rng) if rng.random() < 0.8 else "x",
+            rng.choice(["", "b", "..", "../..", "../../../up", "../../../../up", "b/../..", "/abs", "c/..", rand_path(rng)]),
+            rng.random() < 0.4, rng.random() < 0.2, rng.random() < 0.5, rng.random() < 0.3, rng.choice(["text", "db"])]
+
+
+def directed_remakes():
+    out = []
+    for temp, filed, ext in [(False, False, False), (True, False, False), (False, True, False), (True, True, False),
+                             (False, False, True), (True, False, True)]:
+        c = mk("x", "b", temp=temp, filed=filed, ext=ext)
+        hops = [["remake", "x", bs, temp, False, filed, ext, "text"]
+                for bs in ("../../../up", "..", "", "c", "/abs", "b/../../..", "d/..")]
+        hops += [["remake", nm, "b", temp, False, filed, ext, "text"] for nm in ("../../x", "y", "../y", "a/../../../z")]
+        hops += [["remake", "y", "c", not temp, True, filed, ext, "db"], ["close", True]]
+        out.append(dict(with_siblings(c), hops=hops))
+    return out
+
+
 def random_history(rng):
     c = mk(rng.choice(["x", "x", "x.y", "a/x", "x", ".h"]), rng.choice(["b", "b", "", "b/c"]),
            rng.random() < 0.4, rng.random() < 0.25, rng.random() < 0.5, rng.random() < 0.35, "text")
     hops = []
     for _ in range(rng.choice([1, 2, 2, 3, 4, 5])):
-        if rng.random() < 0.7:
+        if rng.random() < 0.3:
+            hops.append(rand_remake(rng))
+        elif rng.random() < 0.7:
             hops.append(["reopen", rng.choice([None, None, True, False]), rng.choice([None, None, None, "db"]),
                          rng.random() < 0.6, rng.random() < 0.35, rng.random() < 0.2])
         else:
@@ -194,14 +217,23 @@ def _canon(parts, tmap):
     return parts
 
 
+DEPTH = 6     # the sandbox root sits this many directories below the per-case directory that is walked, so that
+              # paths escaping the root with up to DEPTH '..' still land inside the scratch tree and are seen
+
+
 def _snapshot(root, tmap):
+    outer = root
+    for _ in range(DEPTH):
+        outer = os.path.dirname(outer)
     out = []
-    for d, dirs, files in os.walk(root):
+    for d, dirs, files in os.walk(outer):
         dirs.sort()
         for x in dirs:
             out.append([os.path.relpath(os.path.join(d, x), root), False])
         for x in sorted(files):
             out.append([os.path.relpath(os.path.join(d, x), root), True])
+    # the chain of directories leading to the root is not content; anything else above the root shows up as ../...
+    out = [e for e in out if e[0] != "." and set(e[0].split(os.sep)) != {".."}]
     return sorted([_canon(rel.split(os.sep), tmap), isf] for rel, isf in out)
 
 
@@ -214,8 +246,9 @@ def _relpath(path, root, tmap):
 
 def run_impl(case):
     from hio.base.filing import Filer
-    root = os.path.join(str(scratch_dir()), "c29", str(next(_counter)))
-    shutil.rmtree(root, ignore_errors=True)
+    outer = os.path.join(str(scratch_dir()), "c29", str(next(_counter)))
+    shutil.rmtree(outer, ignore_errors=True)
+    root = os.path.join(outer, *(["r"] * DEPTH))
     for d in ("head", "alt", "tmp"):
         os.makedirs(os.path.join(root, d))
 
@@ -253,6 +286,12 @@ def run_impl(case):
                 try:
                     if hop[0] == "close":
                         filer.close(clear=hop[1])
+                    elif hop[0] == "remake":
+                        _, nm, bs, temp, clean, filed, ext, fext = hop
+                        _, fl = filer.remake(name=nm, base=bs, temp=temp, headDirPath=os.path.join(root, "head"),
+                                             clean=clean, filed=filed, extensioned=ext, fext=fext)
+                        if fl is not None:
+                            fl.close()
                     else:
                         _, temp, fext, clear, reuse, clean = hop
                         filer.reopen(temp=temp, fext=fext, clear=clear, reuse=reuse, clean=clean)
@@ -261,8 +300,8 @@ def run_impl(case):
                     r = ["exc", exn_kind(ex)]
                 snap = _snapshot(root, tmap)
                 obs["hops"].append({"res": r, "path": _relpath(filer.path, root, tmap), "snap": snap})
-                if r[0] != "ok":
-                    break          # the history stops at the first exception
+                if r[0] != "ok" and hop[0] != "remake":
+                    break          # the history stops at the first exception (a rejected remake() call changes nothing)
         elif filer is not None:
             p = filer.path
             if not os.path.lexists(p) and os.path.isdir(os.path.dirname(p)):
@@ -281,7 +320,7 @@ def run_impl(case):
     finally:
         if filer is not None and filer.file and not filer.file.closed:
             filer.file.close()
-        shutil.rmtree(root, ignore_errors=True)
+        shutil.rmtree(outer, ignore_errors=True)
 
 
 # ----------------------------------------------------------------------------- oracle
@@ -346,10 +385,10 @@ def _oracle_history(case, obs, P):
     before = set(_paths(obs["mid"]))
     for n, (hop, o) in enumerate(zip(case["hops"], obs["hops"])):
         after = set(_paths(o["snap"]))
-        if o["res"][0] != "ok":
+        if o["res"][0] != "ok" and hop[0] != "remake":
             return None
-        clear = hop[1] if hop[0] == "close" else hop[3]
-        clean = hop[0] == "reopen" and hop[5]
+        clear = hop[1] if hop[0] == "close" else (hop[3] if hop[0] == "reopen" else False)
+        clean = (hop[0] == "reopen" and hop[5]) or (hop[0] == "remake" and hop[4])
         what = f"hop {n} {hop[0]}({', '.join(map(str, hop[1:]))})"
         th = _temp_head(P)
         for p in map(list, sorted(before - after)):
@@ -363,6 +402,8 @@ def _oracle_history(case, obs, P):
                 return f"{what} created {'/'.join(p)}"
             if not (_under(H, p) or _under(A, p) or _under(TMP, p)):
                 return f"{what} created {'/'.join(p)} outside every head directory"
+            if hop[0] == "remake" and _under(TMP, p) and not hop[3]:
+                return f"{what} created {'/'.join(p)} in the temp directory without temp"
         newP = o["path"]
         if clear and P is not None:
             if th:
@@ -432,6 +473,11 @@ def to_coq(case, obs):
     for hop, o in zip(case.get("hops") or [], obs.get("hops") or []):
         if hop[0] == "close":
             hops.append(f"(Path.HClose {coq_bool(hop[1])})")
+        elif hop[0] == "remake":
+            _, nm, bs, temp, clean, filed, ext, fext = hop
+            hops.append("(Path.HRemake %s %s %s %s %s %s %s)" % (
+                _path(nm.split("/")), _path(bs.split("/")), coq_bool(temp), coq_bool(clean), coq_bool(filed),
+                coq_bool(ext), _seg(fext)))
         else:
             _, temp, fext, clear, reuse, clean = hop
             hops.append("(Path.HReopen %s %s %s %s %s)" % (
